@@ -5,7 +5,8 @@ patch="$1"; shift
 cd /repo || exit 2
 if ! git diff --quiet; then echo "repo has uncommitted changes"; exit 2; fi
 git apply "$patch" || { echo "patch does not apply"; exit 2; }
-trap 'git -C /repo checkout -- . ' EXIT INT TERM
+EVBAK=$(mktemp -d /tmp/trymut-ev.XXXXXX); cp -a /verif/evidence "$EVBAK/"
+trap 'git -C /repo checkout -- . ; rm -rf /verif/evidence; cp -a "$EVBAK/evidence" /verif/evidence; rm -rf "$EVBAK"' EXIT INT TERM
 if [ -z "$SKIPTESTS" ]; then /verif/tools/repotest.sh | tail -1; fi
 cd /verif
 for p in "$@"; do
